@@ -28,6 +28,9 @@ var i2ReTricky = []string{
 	`A|a`, `a|A`, `a|A|b`, `z|\x5a`, `k|K`, `s|S`, `K|k|x`, `a|b`, `a|b|c`, `a|b|cd`, `ab|a|b`, `x|x|xy`, `a|a`, `[xX]|x`, `.|a`, `a|.`, `\d|a`, `[ab]|c`,
 	`\dxx1|\dxx2`, `.ab|.ac`, `[0-9]ab|[0-9]ac`, `[0-9]ab|\dac`, `\Dab|[^0-9]ac`, `\d{2}ab|\d{2}ac`, `\d{2}ab|\d{3}ac`, `a{2}bc|a{2}bd`, `\d+ab|\d+ac`, `\wab|\wac|\wad`,
 	`ab1|ab2|cd1|cd2`, `(ab1|ab2)|(ab1|ab2)`, `ab(c|d)|ab(c|d)`, `abc|abd|ab`, `ab|abc|abd`, `xab|xac|xad|x`, `aab|aac|abb|abc`, `a.b|a.c`, `a\.b|a\.c`,
+	// group P3: Equal ignores the fold flag in round 2 of parser.factor
+	`A.|[aA]`, `[aA]b|A.`, `A[^a]|[Aa]a`, `Ab|Ac|[aA]d`, `AB.|A[bB]`, `A{2}x|[aA]{2}y`, `A.|[aA]b|[aA]`, `AB|A[bB]c|[aA]Bd`, `ads[A]x|ads[aA]y`,
+	`Ads|[aA]dserver`, `[aA]dserver|Ads`, `bannerA.|banner[aA]`, `(A.|[aA])banner`, `A|[aA]b`, `[aA]x|A|A`, `[0-9]A.|[0-9][aA]`, `K.|[kK]`, `a.|[aA]`,
 	`x(foo|fob)y`, `(foo|fob)+`, `(foo|fob){2}`, `(foo|fob)*z`, `abc|abd|`, `ab\x63|abd`, `a.c|a.d`, `aa|ab|ac`, `a1|a2|b3`,
 }
 
